@@ -1,6 +1,7 @@
 package prop
 
 import (
+	abci "github.com/cometbft/cometbft/abci/types"
 	"strings"
 	"os"
 	"encoding/json"
@@ -75,6 +76,9 @@ type allChain struct {
 	r   *rig.Rig
 	ws  []Workload
 	n   int
+	// PreExec: before a block is delivered every one of its transactions is first simulated and run through CheckTx in
+	// this process, as a node's RPC and mempool do; nothing of that may reach block execution (replicas do neither)
+	PreExec bool
 }
 
 func newAllChain(run *ev.Run, seed string, journal *rig.Journal, genesisTime time.Time) *allChain {
@@ -109,6 +113,19 @@ func (c *allChain) Step(dt time.Duration) *rig.BlockRecord {
 		txs = append(txs, w.Next(c.n)...)
 	}
 	c.n++
+	if c.PreExec {
+		for _, tx := range txs {
+			func() {
+				defer func() { _ = recover() }()
+				if _, _, err := c.r.App.Simulate(tx.Bytes); err == nil {
+					c.run.Count("pre-exec-simulated-ok", 1)
+				}
+				if res, err := c.r.App.CheckTx(&abci.RequestCheckTx{Tx: tx.Bytes, Type: abci.CheckTxType_New}); err == nil && res.Code == 0 {
+					c.run.Count("pre-exec-checktx-ok", 1)
+				}
+			}()
+		}
+	}
 	br := c.r.DeliverBlock(dt, txs)
 	for _, w := range c.ws {
 		w.Observe(br)
